@@ -75,7 +75,7 @@ def main():
     # ---- QCOW2
     from dissect.hypervisor.disk import qcow2 as q
 
-    mod, sp, (img, _data, backing) = materialise("qcow2", lambda s: s["version"] == 3 and not s["datafile"] and s.get("backing") is None and not s["ext"] and s["cb"] <= 12)
+    mod, sp, (img, _data, backing) = materialise("qcow2", lambda s: s["version"] == 3 and not s["datafile"] and s.get("backing") is None and not s["ext"] and s["cb"] <= 12 and not s.get("big_base"))
     img.seek(0)
     qi = img.read()
     for d, x in flips(qi, 0, 4):
